@@ -531,6 +531,19 @@ func aritySkipNodes(exprs []*lisp.LVal) map[*lisp.LVal]bool {
 			for i := 2; i < len(sexpr.Cells); i++ {
 				skip[sexpr.Cells[i]] = true
 			}
+		case "handler-bind":
+			// (handler-bind ((condition-name handler) ...) body...): each
+			// entry pairs a condition name with a handler. It is not a call
+			// to a function named like the condition, and -- unlike a let
+			// entry -- it binds no name, so it is not a bindingForms member.
+			if ArgCount(sexpr) >= 1 && sexpr.Cells[1] != nil && sexpr.Cells[1].Type == lisp.LSExpr {
+				skip[sexpr.Cells[1]] = true
+				for _, bind := range sexpr.Cells[1].Cells {
+					if bind != nil && bind.Type == lisp.LSExpr {
+						skip[bind] = true
+					}
+				}
+			}
 		}
 		if binds, funBinding := bindingList(sexpr); binds != nil {
 			skip[binds] = true
